@@ -335,7 +335,8 @@ def main(ctx):
         lib.write_if_changed(lib.COQ / 'C01' / 'gen' / 'Tables.v', c01_tables.emit(tables))
         ctx.notes['translated_tables'] = {k: tables[k] for k in (
             'prism_perm_write', 'prism_write_codes', 'prism_perm_read', 'prism_read_type',
-            'frac_digits', 'ignore_pats', 'ignore_src', 'rebind_by_id')}
+            'frac_digits', 'ignore_pats', 'ignore_src', 'rebind_by_id', 'merge_egroups',
+            'merge_initial', 'merge_ngroups')}
     except (c01_tables.TranslateError, SyntaxError, OSError) as e:
         tie_ok = False
         tables = None
@@ -653,6 +654,15 @@ def main(ctx):
                                      'unreferenced_nodes': True, 'temperature_order': 'permuted',
                                      'kind': 'cfg'},
                           what='per-run obligation on remove_useless_nodes fails')
+        for flag, var in (('merge_egroups', 'split-egroup'), ('merge_initial', 'split-initial')):
+            if not tables.get(flag):
+                reported = True
+                ctx.violation('proof-broken', {flag: False},
+                              'blocks with the same name / type are merged by the reader',
+                              'the later block replaces the earlier one',
+                              'C01_same_name_blocks_merged', found_input=True,
+                              signature={'oracle': 'format', 'variant': var, 'kind': 'cfg'},
+                              what='per-run obligation on block merging fails')
         if not reported:
             ctx.violation('proof-broken', {'log': ctx.notes.get('cfg_build_log_tail', '')[-600:]},
                           'PropsCfg.v checks', 'does not check', 'PropsCfg.v', found_input=False,
